@@ -92,6 +92,7 @@ BadSubstrings == <<Q("./"), Q(".."), Q("//"), Q(".\\"), Q("\\\\")>>       \* ...
 BadNames      == <<"dotslash", "dotdot", "dblslash", "dotbackslash", "dblbackslash">>
 IsSecure(s) == /\ \A i \in 1..5 : ~HasQ(s, BadSubstrings[i])
                /\ ~HasChar(s, NUL)
+               /\ ~EndsWithQ(s, Q("/."))                      \* not selector.endswith("/.")  [fix 4th wave]
 
 \* the property's own list of "tries to climb out" (C01 statement) - deliberately a separate
 \* definition: the code's filter is IsSecure, the property's notion is Hostile
